@@ -78,8 +78,9 @@ def getSegmentHeader (n : Nat) : R Val := do
 def getShstrndx : R Nat := do
   let x ← hdr.getNat "e_shstrndx"
   if x != 0xffff then return x
-  let h0 ← getSectionHeader env S data hdr 0
-  (← subscript h0 "sh_link").asNat
+  match ← getSectionHeader env S data hdr 0 with
+  | none => throw .elfParseError
+  | some h0 => h0.getNat "sh_link"
 
 /-- `num_sections()` -/
 def numSections : R Nat := do
